@@ -40,7 +40,16 @@ def worker(args):
             if rnd.random() < 0.6:
                 mem[size - rnd.choice((2, 2, 1, 3))] = 0xCF
             full[org:org + size] = mem
-        lines = ctlgen.gen_doc(rnd, full, start, end, ignored=ign if k % 3 == 0 else None, loops=(k % 3 == 1), rst='-r' in opts)
+        if wrap and rnd.random() < 0.6:
+            # an instruction that starts in the last bytes of memory and runs on at address 0 (Wrap=1; zeros there, as the
+            # input is a binary file), often one that has a second encoding (ED63/ED6B nn): its @bytes must survive the wrap
+            tail = rnd.choice(([0xED, 0x63], [0xED, 0x6B], [0xED], [0xDD, 0xCB, 5], [0xFD, 0xCB], [0xDD, 0xCB], [0xDD],
+                               [0x21, 0x34], [0xC3], [0xDD, 0x36, 1], [0xED, 0x4C][:1], [0xFD]))
+            mem[size - len(tail):size] = tail
+            full[org:org + size] = mem
+            if rnd.random() < 0.7:
+                opts += ['-I', 'Opcodes=ALL']
+        lines = ctlgen.gen_doc(rnd, full, start, end, ignored=ign if k % 3 == 0 else None, loops=(k % 3 == 1), rst='-r' in opts, wrap_ok=wrap)
         if end >= 65536:
             lines = [l for l in lines if not l.startswith('i 65536')]
         c = pipedrv.pipeline(sub, k, mem, org, start, end, lines, opts, wrap)
